@@ -98,7 +98,26 @@ def whitespace_names(case):
     return [bytes.fromhex(nm) for nm, _ in case.get('cfgd', []) if WS.search(bytes.fromhex(nm))]
 
 
-def gen_case(rng, g):
+P_BOUNDARY = 0.15
+BOUNDARY_FOR_SCHEDULE = ['regress-count', 'step-count', 'step-args-count', 'path-len', 'step-name-len', 'name-family', 'string-len', 'list-count',
+                         'option-list-count', 'file-size', 'file-shape', 'int-boundary']
+
+
+def boundary_case(mode, b):
+    case = {'mode': mode, 'kind': 'boundary' if b['valid'] else 'boundary-error', 'execdir': b'@R@/exec'.hex(), 'bclass': b['label'],
+            'text': b['text'].hex()}
+    if b.get('literal'):
+        case['literal_cmds'] = True
+    if b['valid']:
+        gpar, cfgd, cmds = configured(mode, b['ents'])
+        case['gpar'] = gpar
+        case['cfgd'] = [[n.hex(), p] for n, p in cfgd]
+        if mode == 'canvas':
+            case['cmds'] = [c.hex() for c in cmds]
+    return case
+
+
+def gen_case(rng, g, big=False):
     mode = rng.choice(['robsd', 'robsd-cross', 'robsd-ports', 'robsd-regress', 'robsd-regress', 'robsd-regress', 'canvas', 'canvas'])
     ents, st = g.entries(mode, popt=rng.choice([0.1, 0.3]))
     if mode == 'canvas' and rng.random() < 0.35:
@@ -109,6 +128,12 @@ def gen_case(rng, g):
         for _ in range(max(0, want - len(have))):
             ents.insert(at, [b'step'] + g.step_entry(st))
     case = {'mode': mode, 'kind': 'valid', 'execdir': b'@R@/exec'.hex()}
+    if rng.random() < P_BOUNDARY:
+        # one size / count / name-family / file-shape boundary class of conf_gen.Gen.boundary that reaches the schedule
+        avail = [c for c in BOUNDARY_FOR_SCHEDULE if c not in conf_gen.BOUNDARY_MODES or mode in conf_gen.BOUNDARY_MODES[c]]
+        # (the model answers a dozen questions per case and needs 0.5 s each at 4 KiB: long strings are rare in the quick tier)
+        b = g.boundary(mode, ents, st, want=rng.choice(avail), big=big, cap=None if big else (4097 if rng.random() < 0.12 else 1025))
+        return boundary_case(mode, b)
     if mode == 'canvas' and rng.random() < 0.3:
         # name families (one name a prefix of another, any order) with literal commands that print the position of the
         # step in the configuration: the runner must execute the step that carries exactly the listed name
@@ -266,7 +291,9 @@ def per_case(world, case, offsets_all):
         offs = list(range(1, n + 3))
     else:
         offs = sorted(set([1, 2, max(1, n // 2), max(1, n - 1), n, n + 1, n + 4]))
-    offs = [str(o).encode() for o in offs] + [b'0', b'4294967296', b'2147483647', b'x', b'-1']
+    # strtonum(optarg, 1, INT_MAX): values 2^31 / 2^32 / 2^64 above a valid offset (a narrowed parse wraps them onto 1), leading zeros, a sign
+    offs = [str(o).encode() for o in offs] + [b'0', b'4294967296', b'2147483647', b'x', b'-1', b'2147483648', b'4294967297', b'2147483649',
+                                              b'9223372036854775808', b'18446744073709551617', b'01', b'+1', b'1x', b'']
     for o in offs:
         obs['lists'].append((o, run_list(world, case, conf, o)))
     if lines:
@@ -274,7 +301,11 @@ def per_case(world, case, offsets_all):
         for _, name, _ in lines:
             if name not in seen and b'\0' not in name:
                 seen.append(name)
-        for i, name in enumerate(seen[:14] + seen[-3:] if len(seen) > 17 else seen):
+        if len(seen) > 17:
+            # the first ones, the last ones and the positions next to the growth steps of the step vector (16, 32, 64, 256 entries)
+            keep = sorted(set(range(14)) | {k for k in (15, 16, 17, 31, 32, 33, 63, 64, 65, 255, 256) if k < len(seen)} | set(range(len(seen) - 3, len(seen))))
+            seen = [seen[k] for k in keep]
+        for i, name in enumerate(seen):
             tr = (i % 5 == 4)
             obs['execs'].append((name, tr, run_exec(world, case, conf, name, tr)))
     return obs
@@ -295,7 +326,7 @@ def evaluate(ctx, cases, res, world=None, offsets_all=False):
         impl = ctx.build_impl()
         world = cc.World(ctx, impl)
         make_stubs(world)
-    drv = ctx.build_driver('cf', withz=True)
+    drv = cc.unlimited_stack(ctx, ctx.build_driver('cf', withz=True))
     with ThreadPoolExecutor(16) as ex:
         allobs = list(ex.map(lambda c: per_case(world, c, offsets_all), cases))
     questions = []
@@ -321,6 +352,8 @@ def evaluate(ctx, cases, res, world=None, offsets_all=False):
         res.evaluations += 1
         fullrc = ob['lists'][0][1][0]
         res.count('%s %s' % (case['mode'], 'listed' if fullrc == 0 else 'not listed'))
+        if case.get('bclass'):
+            res.count('class: ' + case['bclass'])
         if ob['lines'] and len(ob['lines']) > 1 and (case['mode'] in ('robsd-regress', 'canvas')):
             res.nontrivial.add(hashlib.sha1((case['mode'] + case['text']).encode()).hexdigest())
 
@@ -436,6 +469,11 @@ def evaluate(ctx, cases, res, world=None, offsets_all=False):
                 specmeta.append((ci, 'full', None))
             for off, (rc, out, err) in ob['lists'][1:]:
                 if not off.isdigit() or not 1 <= int(off) <= len(lines):
+                    if not re.fullmatch(rb'[ \t]*\+?[0-9]+', off) and (rc == 0 or out != b''):
+                        # -o takes the number of a step: an argument that is no decimal number (empty, trailing garbage, a name,
+                        # negative) selects nothing; the listing must not be printed from a guessed position
+                        res.oracle_failures.append({'case': case, 'signature': 'offset-not-a-number-lists',
+                                                    'what': 'offset %r is not a step number, yet robsd-step -L exits %d and prints %r' % (off, rc, out[:60])})
                     if rc == 0 and off.isdigit() and int(off) > len(lines):
                         res.oracle_failures.append({'case': case, 'signature': 'offset-beyond-end-lists', 'what': 'offset %s beyond the %d steps prints %r' % (off.decode(), len(lines), out[:60])})
                     continue
@@ -480,7 +518,7 @@ def run(ctx, n=None):
                 'against stub scripts; non-trivial = a listed regress or canvas configuration; distinct by content hash')
     n = n or ctx.budget(220, 6000)
     g = conf_gen.Gen(ctx.rng)
-    cases = load_corpus() + [gen_case(ctx.rng, g) for _ in range(n)]
+    cases = load_corpus() + [gen_case(ctx.rng, g, big=(ctx.tier == 'thorough')) for _ in range(n)]
     res.samples = [{k: (bytes.fromhex(v).decode('latin1') if k == 'text' else v) for k, v in c.items()} for c in cases[:3]]
     world = None
     for i in range(0, len(cases), 2000):
